@@ -64,6 +64,9 @@ structure Cand where
   errKinds : List (Nat × ErrKind) := []
   panicked : Bool := false
   stuck : Bool := false
+  /-- an evaluation failure made `notifySteps` return early: which of the popped nodes were processed before depends on
+      Go's map order, so the provided inputs of that and later reactions are not compared any more -/
+  relaxed : Bool := false
 
 def mixStr (seed : Nat) (s : String) : UInt64 := hash (seed, s)
 
@@ -92,7 +95,10 @@ def stepCand (P : Prepared) (fns : Fns) (ord : Order) (idx : Nat) (c : Cand) (e 
     match a with
     | .output id v => c' := { c' with winners := c'.winners ++ [(id, v)] }
     | .outputSkipped id v => if c.s.outputDone then pure () else c' := { c' with winners := c'.winners ++ [(id, v)] }
-    | .errorSent k => c' := { c' with errKinds := c'.errKinds ++ [(idx, k)] }
+    | .errorSent k =>
+      c' := { c' with errKinds := c'.errKinds ++ [(idx, k)] }
+      if k == .evalFailed then c' := { c' with relaxed := true }
+    | .errorDropped k => if k == .evalFailed then c' := { c' with relaxed := true }
     | .panic _ => c' := { c' with panicked := true }
     | .stuck => c' := { c' with stuck := true }
     | _ => pure ()
@@ -120,7 +126,7 @@ def runLoopCaseWith (c : Json) (errCap : Nat) (fns : Fns) (full : Bool) : LoopOu
         let (cd', acts) := stepCand P fns ord idx cd e
         let died := cd'.panicked || cd'.stuck
         if firstModel.isEmpty then firstModel := providesOf acts
-        if died || providesEq mine (providesOf acts) then
+        if died || cd'.relaxed || providesEq mine (providesOf acts) then
           let fp := hash (stateFingerprint cd'.s, toString (repr (cd'.winners.map (·.2))), cd'.errKinds.length)
           if !(seen.contains fp) && next.length < 24 then
             seen := fp :: seen
